@@ -2,13 +2,14 @@
    The mirrors carry the panic sites of the code explicitly (Panic outcomes); here: no operation of
    the Memfs alphabet reaches one, for any state and any argument strings, and the pure helpers are
    total.  Bounded time is fuel-bounded termination of the mirrors' worklist loops: proved for expand's
-   scanner (C17) and for move_p (its relocation loop finishes within 2 * entries + 2 iterations in every
-   well-formed state).  PARTIAL: for remove_all and the traversal the fuel bound is exercised (a HANG
-   outcome in the transcripts would be a mismatch), not yet proved. *)
+   scanner (C17), for move_p (its relocation loop finishes within 2 * entries + 2 iterations in every
+   well-formed state) and for remove_all (its depth-first worklist finishes within 2 * entries + 2
+   iterations in every well-formed state, the root included).  PARTIAL: for the traversal (entries) the
+   fuel bound is exercised (a HANG outcome in the transcripts would be a mismatch), not yet proved. *)
 From stdpp Require Import gmap.
 From Coq Require Import NArith.
 From RV Require Import Base.Str Path.Clean Path.CleanFacts Path.Helpers Path.Expand Path.ExpandFacts
-  Memfs.State Memfs.Ops Memfs.Walk Memfs.WalkFacts Memfs.Step Memfs.Wf Memfs.ContentFacts Memfs.WfMove.
+  Memfs.State Memfs.Ops Memfs.Walk Memfs.WalkFacts Memfs.Step Memfs.Wf Memfs.ContentFacts Memfs.WfMove Memfs.RemoveAll.
 
 Theorem C12_step_no_panic : forall env m o, step env m o <> Panic.
 Proof. exact step_no_panic. Qed.
@@ -27,6 +28,11 @@ Print Assumptions C12_usable_after.
 Theorem C12_move_p_terminates : forall env m s d, WF m -> move_op env m s d <> OutOfFuel.
 Proof. exact move_op_terminates. Qed.
 Print Assumptions C12_move_p_terminates.
+
+(* remove_all never runs out of fuel either, on any path, the root included *)
+Theorem C12_remove_all_terminates : forall env m s, WF m -> remove_all_op env m s <> OutOfFuel.
+Proof. exact remove_all_op_terminates. Qed.
+Print Assumptions C12_remove_all_terminates.
 
 Theorem C12_clean_total : forall s, clean s <> Panic /\ clean s <> OutOfFuel.
 Proof. exact clean_total. Qed.
